@@ -211,7 +211,10 @@ fn process_dir(
                     *quit = true;
                     break;
                 }
-                if matcher_io.should_skip_current_dir() {
+                // With -depth (contents first) the directory's contents have already been
+                // visited and skip_current_dir() would drop the *parent's* remaining entries;
+                // -prune has no effect in that mode.
+                if matcher_io.should_skip_current_dir() && !config.depth_first {
                     it.skip_current_dir();
                 }
             }
